@@ -70,11 +70,20 @@ class Book(ss.Analyzer):
         # every agent array held by a module (found through the module, not through the people's registry) covers the whole id space
         for mod in sim.modules:
             for k, v in mod.__dict__.items():
-                if isinstance(v, ss.Arr) and (v.len_used != n or len(v.raw) < n):
-                    self.problems.append((ti, f'{mod.name}.{k} has len_used={v.len_used}, len(raw)={len(v.raw)} but {n} uids have been issued'))
+                for j, a in enumerate(v if isinstance(v, (list, tuple)) else [v]):      # arrays kept directly or in lists (per-dose / per-strain arrays)
+                    if isinstance(a, ss.Arr) and (a.len_used != n or len(a.raw) < n):
+                        self.problems.append((ti, f'{mod.name}.{k}{f"[{j}]" if isinstance(v, (list, tuple)) else ""} has len_used={a.len_used}, len(raw)={len(a.raw)} but {n} uids have been issued'))
         au = np.asarray(ppl.auids)
         if len(np.unique(au)) != len(au): self.problems.append((ti, 'duplicate active uids'))
         if len(au) and au.max() >= n: self.problems.append((ti, 'active uid outside the id space'))
+        # every death requested so far (logged by the class-level wrapper of People.request_death installed by the check) has been carried out by now
+        reqs = getattr(ppl, '_c10_requests', None)
+        if reqs:
+            for t_req, us in reqs:
+                still = [u for u in us if u < n and bool(ppl.alive.raw[u])]
+                if still:
+                    self.problems.append((ti, f'death of agent {still[0]} was requested at step {t_req} (before the resolution phase of step {int(ti)}) and has not been carried out: its time of death reads {float(ppl.ti_dead.raw[still[0]])}')); break
+            reqs.clear()
         lost = np.setdiff1d(np.flatnonzero(np.asarray(ppl.alive.raw[:n])), au)
         if len(lost):
             self.problems.append((ti, f'agent {int(lost[0])} is alive (never died) but is no longer among the active agents ({len(lost)} such agents)'))
@@ -157,3 +166,29 @@ class DelayDays(ss.Intervention):
         self.define_pars(delay=ss.constant(v=ss.days(5)), wait=ss.normal(loc=ss.days(20), scale=ss.days(2)))
         self.update_pars(pars, **kwargs)
     def step(self): pass
+
+
+class CurePositives(ss.Intervention):
+    """Cures (infected -> recovered) the agents whom the triage/screening intervention `source` reported positive in this step."""
+    def __init__(self, source='tri', disease='sir', **kw):
+        super().__init__(**kw); self.source = source; self.disease = disease
+    def step(self):
+        pos = ss.uids(self.sim.interventions[self.source].outcomes['positive'])
+        if len(pos):
+            d = self.sim.diseases[self.disease]; cured = pos[d.infected[pos]]
+            d.infected[cured] = False; d.recovered[cured] = True
+
+
+class MultiDose(ss.Intervention):
+    """Keeps one per-agent array per dose in a list (the arrays share their name) and lists them through an overloaded `states` property."""
+    def __init__(self, n_doses=3, **kw):
+        super().__init__(**kw); self.n_doses = n_doses
+        self.received = [ss.BoolArr('received', label=f'Received dose {i}') for i in range(n_doses)]
+        self.ti_received = [ss.FloatArr('ti_received', label=f'Time of dose {i}') for i in range(n_doses)]
+    @property
+    def states(self):
+        return super().states + self.received + self.ti_received
+    def step(self):
+        k = self.ti
+        if k < self.n_doses:
+            uids = self.sim.people.auids[:10]; self.received[k][uids] = True; self.ti_received[k][uids] = k
